@@ -80,6 +80,9 @@ INST_VALUES = [
     "..", "../", "../..", "1.2.3/../../x", "./../x", "..//x", "../x/", "sub/../../x", "sub/../x", "x/../../y",
     "../.hidden", "../cwd/x", "../instances.sqlite.bak", "....//x", ".../x", "%2e%2e/x", "..%2fx", "../1.2.3",
     "../../sentinel_root.txt",
+    # the storage directory already holds sub-directories named <prefix>.d (see Sandbox): a prefixed but unsanitised
+    # file name "<prefix>." + value can climb out through them
+    "d/../../x", "d/../../sentinel.txt", "d/../../sibling/keep.txt", "d/../x",
     # absolute
     "{LV}/abs_x", "{ROOT}/abs_x", "{BASE}/abs_x", "{LV}/sentinel.txt", "{CWD}/abs_in_cwd", "{STORAGE}/../abs_y",
     "{STORAGE}_evil/x", "/{LV}/x", "{STORAGE}/inside_abs", "{LV}/sibling/keep.txt", "/",
@@ -94,7 +97,7 @@ INST_VALUES = [
 CLS_HOSTILE = ["../x", "../../x", "{LV}/abs_c", "{ROOT}/abs_c", "..", ".", "", "a/b", "/", "../sentinel.txt",
                "../sibling/", "sub/", "sub/../..", "..\\x", "\x00", "../x\x00", "1." * 150, "{STORAGE}/../abs_c2", None]
 TOKENS = ["..", "..", ".", "/", "/", "//", "\\", "a", "x", "1.2.3", " ", "\x00", "\u00e9", "{LV}", "{ROOT}", "{STORAGE}",
-          "{CWD}", "sentinel.txt", "sibling", "instances_evil", "sub", "~", "%2e", "UN.", "CT.", "cwd", "..."]
+          "{CWD}", "sentinel.txt", "sibling", "instances_evil", "sub", "~", "%2e", "UN.", "CT.", "cwd", "...", "d", "d/.."]
 
 
 def _is_plain_uid(v):
@@ -332,7 +335,7 @@ def encode_dataset(ts, inst_b, cls_b):
 
 # ------------------------------------------------------------------ sandbox
 class Sandbox:
-    """base/root/lv/{instances, instances_evil, sibling, sentinel.txt, cwd, instances.sqlite}"""
+    """base/root/lv/{instances/{sub,CT.d,UN.d}, instances_evil, sibling, sentinel.txt, cwd, instances.sqlite}"""
 
     def __init__(self, app):
         self.app = app
@@ -352,7 +355,8 @@ class Sandbox:
         if app != "storescp-cwd":
             self._w(os.path.join(self.cwd, "cwd_sentinel.txt"), "sentinel cwd")
         if app != "storescp-newdir":
-            os.makedirs(os.path.join(self.storage, "sub"), exist_ok=True)
+            for d in ("sub", "CT.d", "UN.d"):
+                os.makedirs(os.path.join(self.storage, d), exist_ok=True)
             self._w(os.path.join(self.storage, "CT.1.2.3.4.5"), "pre-existing instance")
         self.allowed_files = set()
         if app == "qrscp":
@@ -434,20 +438,22 @@ def classify(raw, sb, hostile_texts):
         if len(parts) > 1:
             return "subdir-separator"
         return "other"
+    junk = " \x00\t\r\n"
     if os.path.isabs(raw):
+        # the path is not (lexically) under the storage directory: "absolute" only if it is the peer's own
+        # absolute string that was used as the path, otherwise the code under test chose the location itself
+        nraw = os.path.normpath(raw)
+        nraw = nraw[1:] if nraw.startswith("//") else nraw
         for h in hostile_texts:
-            if h and h.startswith("/") and (raw == h or raw.startswith(h) or h.rstrip("\x00 ").startswith(raw)
-                                            or os.path.normpath(h.split("\x00")[0]) == os.path.normpath(raw)):
-                return "absolute"
-        for h in hostile_texts:
-            if h and h.startswith("/"):
-                return "absolute"
-        for h in hostile_texts:
-            if h and ".." in h.replace("\\", "/").split("/"):
-                return "dotdot"
-    else:
-        if ".." in raw.split(os.sep):
-            return "dotdot"
+            for part in [h] + h.split("\\"):
+                part = part.strip(junk).split("\x00")[0]
+                if part.startswith("/"):
+                    nh = os.path.normpath(part)
+                    nh = nh[1:] if nh.startswith("//") else nh
+                    if len(nh) > 1 and (nraw == nh or nraw.startswith(nh) or nh.startswith(nraw)):
+                        return "absolute"
+    elif ".." in raw.split(os.sep):
+        return "dotdot"
     return "other"
 
 
@@ -652,6 +658,7 @@ def _run(case):
 
             # ---- verdict for this store
             hostile_texts = [t for t in (inst_t, cls_t) if t is not None]
+            hostile_texts += [b.decode("latin-1") for b in (inst_b, cls_b) if b is not None]   # pydicom's default
             store_v = {}
             observed = []
             wrote_somewhere = False
